@@ -36,6 +36,9 @@ def _reducer(trace, ev):
     if not trace:
         if k == "W" and (set(ev[3]) & {RECV, ARG}):
             return (Event(("DIRTY", ev[1], ev[2], tuple(ev[3]), ev[8], ev[9])),)
+        if k == "INV" and (set(ev[3]) & {RECV, ARG}):
+            # invalidating dependants deletes / resets them on the object
+            return (Event(("DIRTY", "invalidate_attrs", ev[1], tuple(ev[3]), "", ev[-1])),)
         return trace
     if k in ("R", "UR", "MR", "RR"):
         n = Event((k, ev[1], ev[-1]))
